@@ -64,6 +64,10 @@ pub fn payloads() -> Vec<(&'static str, Vec<u8>)> {
 }
 
 fn main() {
+    // An allocation failure ends a child via std's `rust_oom` -> abort; with RUST_BACKTRACE set in the
+    // environment that path symbolises and prints a backtrace first (~0.1 s per dead child, and thousands
+    // of children die in this check).  The verdict does not depend on it.
+    std::env::set_var("RUST_BACKTRACE", "0");
     // `ZV_C15_SEEDS=1 c15 [--tier thorough]`: print the seed corpus (label, length, expected_len) of every parser and exit
     if std::env::var_os("ZV_C15_SEEDS").is_some() {
         let tier = if std::env::args().any(|a| a == "thorough") { Tier::Thorough } else { Tier::Quick };
@@ -82,6 +86,11 @@ fn main() {
             for s in &seeds {
                 let ok = zverif::util::catch(|| (p.parse)(&s.bytes, s.expected_len));
                 eprintln!("    {:<50} len={:<5} n={:<4} parse(seed)={:?}", s.label, s.bytes.len(), s.expected_len, ok.map_err(|f| f.class));
+            }
+        }
+        if let Ok(st) = std::fs::read_to_string("/proc/self/status") {
+            for l in st.lines().filter(|l| l.starts_with("VmSize") || l.starts_with("VmRSS") || l.starts_with("VmPeak")) {
+                eprintln!("{l}");
             }
         }
         return;
